@@ -679,6 +679,10 @@ def nontrivial(actions):
 def mc_run(c, prop, name, expect=(), oracle=False, timeout=1500, **kw):
     """design-level exhaustive run.  expect: invariants that MUST be violated (oracle self-check / open finding
     reproduced at model level); anything else violated is a design-level violation of the property."""
+    import os
+    if os.environ.get("VERIF_PS_SKIP_MC"):      # development aid (sensitivity experiments): the model-only runs do not depend on /repo
+        c.log("skipping design-level run %s (VERIF_PS_SKIP_MC)" % name)
+        return None
     p = _cfgfile(c, name + ".cfg", mc_cfg(**kw))
     r = c.tlc(SD, "MC_PathSet", cfg=p, timeout=timeout, expect_violation=bool(expect), coverage=not expect)
     check_universe_printed(c, r, kw["u"])
